@@ -36,7 +36,9 @@ CONSTANTS Ids,                 \* possible unit ids (the id generator may pick a
           MaxOut,              \* chunks of output a payload may write
           MaxTicks,            \* status ticks of the runner
           MaxCrashes,          \* daemon crashes + runner crashes
-          MaxOps,              \* client operations per session
+          MaxOps,              \* client operations of the session FirstSess
+          MaxOps2,             \* client operations of every other session
+          FirstSess,
           RunEnabled,          \* FALSE: units are never started (id-uniqueness configuration)
           Ops,                 \* subset of {"submit","cancel","release","status"} the clients use
           FindUnitHoldsRLock,  \* TRUE: findUnit keeps the read lock while rescanning (the code before the fix)
@@ -121,7 +123,7 @@ Init ==
   /\ rl = [i \in Ids |-> Fresh("")]
   /\ ours = [i \in Ids |-> FALSE] /\ rsig = [i \in Ids |-> FALSE]
   /\ child = [i \in Ids |-> "none"] /\ ticks = [i \in Ids |-> 0]
-  /\ opsLeft = [c \in Sess |-> MaxOps]
+  /\ opsLeft = [c \in Sess |-> IF c = FirstSess THEN MaxOps ELSE MaxOps2]
   /\ acked = [i \in Ids |-> FALSE] /\ told = [i \in Ids |-> NoTold] /\ pre = [i \in Ids |-> NoTold]
   /\ relreq = [i \in Ids |-> FALSE] /\ released = [i \in Ids |-> FALSE] /\ cnreq = [i \in Ids |-> FALSE]
   /\ gen = [i \in Ids |-> 0] /\ emptyRec = [i \in Ids |-> FALSE] /\ liveFail = [i \in Ids |-> FALSE]
